@@ -379,3 +379,60 @@ func ImplGNFA(p *Prog) (g *GNFA, syms map[string]bool, specErr *SpecErr, pan int
 	}
 	return g, syms, nil, nil
 }
+
+// SpecOutcome is the result of compiling a raw spec string with fixed declarations
+type SpecOutcome struct {
+	OK      bool
+	SpecErr *SpecErr
+	Pan     interface{}
+	Events  []string
+}
+
+// CompileSpec declares -a/--aa (flag), -o/--out (valued), X (argument), sets the spec and calls Run with no argument.
+// Light-weight (no goroutine): under ContinueOnError with an empty command line nothing can call the exit function.
+// With sub=true the spec is given to a subcommand "sub" reached by routing, and the root has all three hooks.
+func CompileSpec(spec string, sub bool) (out SpecOutcome) {
+	cli.VerifSetStdErr(io.Discard)
+	defer func() {
+		if v := recover(); v != nil {
+			if pos, in, ok := cli.VerifParseErrorPos(v); ok {
+				txt := ""
+				func() {
+					defer func() {
+						if r := recover(); r != nil {
+							txt = fmt.Sprintf("Error() panicked: %v", r)
+						}
+					}()
+					txt = v.(error).Error()
+				}()
+				out.SpecErr = &SpecErr{Pos: pos, Input: in, Text: txt}
+				return
+			}
+			out.Pan = v
+		}
+	}()
+	app := cli.App("app", "")
+	app.ErrorHandling = flag.ContinueOnError
+	ev := func(n string) func() { return func() { out.Events = append(out.Events, n) } }
+	decl := func(c *cli.Cmd) {
+		c.BoolOpt("a aa", false, "")
+		c.StringOpt("o out", "", "")
+		c.StringsArg("X", nil, "")
+		c.Spec = spec
+		c.Before, c.Action, c.After = ev("B"), ev("ACT"), ev("A")
+	}
+	argv := []string{"app"}
+	if sub {
+		app.Before, app.After = ev("B0"), ev("A0")
+		app.Command("sub", "", decl)
+		argv = append(argv, "sub")
+	} else {
+		decl(app.Cmd)
+	}
+	app.Run(argv)
+	out.OK = true
+	return
+}
+
+// Tokenize exposes the spec lexer through the hook
+func Tokenize(spec string) ([]cli.VerifToken, int, error) { return cli.VerifTokenize(spec) }
